@@ -95,7 +95,8 @@ impl Case14 {
                     return e("unexpected-panic", format!("{}: inference-only forward panicked: {}", desc(it), p));
                 }
             }
-            let xv = gen_vals(spec.xseed, numel(&xd), kind);
+            // some batches are all zeros: the pre-activations are the biases, so whole relu layers can be inactive
+            let xv = if spec.xseed % 6 == 0 { vec![0.0; numel(&xd)] } else { gen_vals(spec.xseed, numel(&xd), kind) };
             let out = match guarded(|| model.forward(arr(&xd, &xv))) {
                 Ok(o) => o,
                 Err(p) => return e("unexpected-panic", format!("{}: forward panicked: {}", desc(it), p)),
